@@ -9,6 +9,7 @@ HERE = os.path.dirname(os.path.abspath(__file__))
 JOBS = [
     ("py2v_batch.py", "Gen/BatchTasksGen.v"),
     ("py2v_tempfile.py", "Gen/TempfileSkel.v"),
+    ("pyx2v.py", "Gen/KernelPyx.v"),
 ]
 if __name__ == "__main__":
     repo, coq = sys.argv[1], sys.argv[2]
